@@ -28,6 +28,13 @@ theorem linkOr_assoc (a b c : Option (List Char)) : linkOr c (linkOr b a) = link
   · simp [hc]
   · by_cases hb : strTruthy b = true <;> simp [hc, hb]
 
+theorem testBit_false_of_lt_8192 {n : Nat} (h : n < 8192) {j : Nat} (hj : 13 ≤ j) : n.testBit j = false := by
+  apply Nat.testBit_lt_two_pow
+  calc n < 2 ^ 13 := h
+    _ ≤ 2 ^ j := Nat.pow_le_pow_right (by omega) hj
+
+namespace Style
+
 theorem bitsToNat_testBit (l : List Bool) (i : Nat) : (bitsToNat l).testBit i = l.getD i false := by
   induction l generalizing i with
   | nil => simp [bitsToNat]
@@ -39,21 +46,14 @@ theorem bitsToNat_testBit (l : List Bool) (i : Nat) : (bitsToNat l).testBit i = 
     | succ j =>
       rw [Nat.testBit_succ, List.getD_cons_succ, ← ih]
       congr 1
-      cases b <;> simp <;> omega
+      cases b <;> simp only [bitsToNat] <;> (try simp) <;> omega
 
 theorem bitsToNat_lt (l : List Bool) : bitsToNat l < 2 ^ l.length := by
   induction l with
   | nil => simp [bitsToNat]
   | cons b r ih =>
     simp only [bitsToNat, List.length_cons, Nat.pow_succ]
-    cases b <;> simp <;> omega
-
-theorem testBit_false_of_lt_8192 {n : Nat} (h : n < 8192) {j : Nat} (hj : 13 ≤ j) : n.testBit j = false := by
-  apply Nat.testBit_lt_two_pow
-  calc n < 2 ^ 13 := h
-    _ ≤ 2 ^ j := Nat.pow_le_pow_right (by omega) hj
-
-namespace Style
+    cases b <;> (try simp) <;> omega
 
 theorem kwSet_testBit (kw : Kwargs) (j : Nat) :
     (kwSet kw).testBit j = (decide (j < 13) && (kw.getD j none).isSome) := by
@@ -81,7 +81,9 @@ theorem kwVal_sub (kw : Kwargs) : kwVal kw &&& kwSet kw = kwVal kw := by
   rw [Nat.testBit_and, kwSet_testBit, kwVal_testBit]
   cases h : kw.getD i none with
   | none => simp
-  | some b => simp
+  | some b => cases b <;> simp
+
+attribute [local irreducible] kwSet kwVal
 
 /-! ### the invariant every constructor keeps -/
 
@@ -186,7 +188,6 @@ theorem inv_add (v) {a b : Style} (ha : Inv a) (hb : Inv b) : Inv (add v a b) :=
       refine ⟨and_or_sub ha.attrs_sub, or_lt_8192 ha.set_lt hb.set_lt, ?_⟩
       intro hn
       simp at hn
-      simp_all
 
 theorem hashOk_add (v : Variant) (hv : v.addHash = false) {a b : Style} (ha : HashOk a) (hb : HashOk b) :
     HashOk (add v a b) := by
@@ -220,7 +221,10 @@ theorem hashOk_copy {s : Style} (h : HashOk s) : HashOk s.copy := by
 theorem render_congr {s t : Style} (h1 : s.color = t.color) (h2 : s.bgcolor = t.bgcolor)
     (h3 : s.attributes = t.attributes) (h4 : s.setAttributes = t.setAttributes) (h5 : s.link = t.link) :
     render s = render t := by
-  simp only [render, strElems, attrElem, attr, h1, h2, h3, h4, h5]
+  cases s; cases t
+  simp only at h1 h2 h3 h4 h5
+  subst h1 h2 h3 h4 h5
+  rfl
 
 theorem cacheOk_copy {s : Style} (h : CacheOk s) : CacheOk s.copy := by
   unfold copy
@@ -381,7 +385,8 @@ theorem fieldsKey_eq_of_eq {a b : Style} (h : eq a b = true) : a.fieldsKey = b.f
 
 theorem add_assoc (v : Variant) (a b c : Style) : add v (add v a b) c = add v a (add v b c) := by
   by_cases ha : a.isNull = true <;> by_cases hb : b.isNull = true <;> by_cases hc : c.isNull = true <;>
-    simp [add, ha, hb, hc, Option.or_assoc, attrs_assoc, linkOr_assoc, Nat.lor_assoc]
+    simp [add, ha, hb, hc, Option.or_assoc, attrs_assoc, linkOr_assoc, Nat.or_assoc] <;>
+    cases v.addHash <;> simp
 
 theorem add_null_right (v : Variant) (a : Style) : add v a Style.null = a := by
   simp [add, Style.null]
